@@ -16,7 +16,7 @@
 (* the unprimed and primed protocol variables), the protocol actions are   *)
 (* used unchanged.                                                         *)
 (***************************************************************************)
-EXTENDS TaskManager, Json
+EXTENDS TaskManager, TLC, Json
 
 VARIABLES cs,      \* sequence of critical-section entries
           syncH    \* the task that ran synchronously on the run-loop goroutine ("none" if there was none)
